@@ -2,11 +2,11 @@
 import re
 
 from .lib import callers, closure_of_operand
-from .lib_c16 import (SPAWN, after_await, awaits, discr_switches, give_up_sites, result_switches_of, slice_has_call_at,
-                      spawned_coroutine, upvar_index_where, variant_edge)
+from .lib_c16 import (SPAWN, after_await, await_payloads, awaits, give_up_sites, result_switches_of, slice_has_call_at,
+                      spawned_coroutine, upvar_index_where, variant_edge, variant_flow)
 
 LEVEL = "other"
-TECHNIQUE = "static analysis: decision table of the HandlerTaskMode switch in http_request_handle's MIR (which execution context runs the handler), ownership tracking of the waitgroup worker, edge dominance for panic propagation"
+TECHNIQUE = "static analysis: decision table of the task mode in http_request_handle's MIR (the body is explored once per value of config.default_handler_task_mode, following only edges feasible under that value: which execution context runs the handler), ownership tracking of the waitgroup worker, edge dominance for panic propagation"
 LEVEL_TEXT = ("Decides on all paths of http_request_handle's MIR (current tree): the CancelOnDisconnect arm calls and awaits the handler inside the request future itself with no spawn "
               "on the arm, so dropping the request future drops the handler; the Detached arm runs the handler only inside the coroutine handed to tokio::spawn, nothing in the crate can "
               "abort a task, the spawned coroutine owns a clone of handler_waitgroup_worker and gives it up only after the handler future completed, the handler's result is what is sent "
@@ -14,8 +14,9 @@ LEVEL_TEXT = ("Decides on all paths of http_request_handle's MIR (current tree):
               "the Err edge of the receiver await and re-raises the spawned task's own panic.  Not decided: that hyper drops the request future promptly on disconnect, that tokio runs a "
               "spawned task to completion and isolates panics per task (schedules, third-party).")
 LEVEL_NOTE = "Trusts rustc MIR, the extractor, tokio::spawn (detaches; dropping a JoinHandle does not cancel), oneshot channel semantics, waitgroup::Worker (released on drop)."
-EXPLANATION = ("Rules over the MIR of server::http_request_handle, its spawned coroutine, http_request_handle_wrap and Service::call from the current tree: TABLE (switch on "
-               "config.default_handler_task_mode -> execution context), WHO-CALLS censuses (RouteHandler::handle_request, task abort APIs), ownership/give-up sites of the captured "
+EXPLANATION = ("Rules over the MIR of server::http_request_handle, its spawned coroutine, http_request_handle_wrap and Service::call from the current tree: TABLE (value of "
+               "config.default_handler_task_mode -> execution context; the mode-specific parts of the body are found by conditional propagation of the enum variant through "
+               "match / if let / matches! / == / copied locals / named flags, not by the shape of one switch), WHO-CALLS censuses (RouteHandler::handle_request, task abort APIs), ownership/give-up sites of the captured "
                "worker against the Ready edge of the handler await, SAME-SOURCE (tx/rx of one oneshot::channel; sent value is the handler result), edge dominance of resume_unwind by "
                "the Err edge of `rx.await`.")
 TRUSTED = ["rustc nightly MIR", "mirfacts extractor", "rules/engine.py + rules/lib_c16.py", "tokio task / oneshot semantics", "waitgroup crate"]
@@ -24,8 +25,18 @@ HANDLE = r"handler::RouteHandler::handle_request$"
 ABORT = r"JoinHandle::<T>::abort$|::abort_handle$|AbortHandle|task::JoinSet|AbortOnDropHandle"
 
 
+MODE_ADT = "config::HandlerTaskMode"
+MODE_FIELD = "default_handler_task_mode"
+
+
 class _A:
-    """Anchors shared by the rules (found by role)."""
+    """Anchors shared by the rules (found by role).
+
+    The two task modes are told apart by *hypothesis*, not by the shape of the test: the request future's MIR is
+    explored once under "server.config.default_handler_task_mode is CancelOnDisconnect" and once under "... is
+    Detached" (lib_c16.variant_flow: only edges an execution with that mode can take are followed, whether the mode
+    is tested with match, if let, matches!, `==`, through a copied local or a named flag, or by an early return).
+    A block is *exclusive* to a mode if it is reachable under that hypothesis and not under the other."""
 
     def __init__(self, ctx, R):
         self.top = ctx.need_fn(ctx.ds, R, r"^server::http_request_handle$")
@@ -33,20 +44,46 @@ class _A:
         if not hb.raw.get("coroutine"):
             ctx.lost(R, "coroutine body of http_request_handle")
             raise _Lost()
-        sw = [(bb, info) for bb, info in discr_switches(hb, r"^config::HandlerTaskMode$")]
-        if len(sw) != 1:
-            ctx.lost(R, "the single switch on HandlerTaskMode in http_request_handle (%d found)" % len(sw))
+        adt = ctx.ds.adts.get(MODE_ADT)
+        names = [v["name"] for v in adt["variants"]] if adt else []
+        if sorted(names) != ["CancelOnDisconnect", "Detached"]:
+            ctx.lost(R, "enum %s with exactly the variants CancelOnDisconnect and Detached (found %s)" % (MODE_ADT, names))
             raise _Lost()
-        self.sw, self.info = sw[0]
-        self.mode_from_config = hb.slice(self.info["place"]).reads_field("default_handler_task_mode") or \
-            any(isinstance(e, dict) and e.get("n") == "default_handler_task_mode" for e in self.info["place"]["p"])
-        self.cancel = variant_edge(hb, self.sw, self.info, "CancelOnDisconnect")
-        self.detached = variant_edge(hb, self.sw, self.info, "Detached")
-        if self.cancel is None or self.detached is None or self.cancel == self.detached:
-            ctx.lost(R, "distinct CancelOnDisconnect / Detached edges of the task-mode switch")
+
+        def is_mode(pl):
+            return any(isinstance(e, dict) and e.get("n") == MODE_FIELD for e in pl["p"])
+        self.flow = {n: variant_flow(hb, assume=(lambda pl, i=i: i if is_mode(pl) else None)) for i, n in enumerate(names)}
+        self.mode_from_config = all(f.used > 0 for f in self.flow.values())
+        self.excl = {n: self.flow[n].reach - set().union(*[self.flow[m].reach for m in names if m != n]) for n in names}
+        if not self.mode_from_config or not all(self.excl.values()):
+            ctx.lost(R, "a test of server.config.%s in http_request_handle that separates the two task modes (tests decided by the mode: %s; blocks exclusive to a mode: %s)" % (
+                MODE_FIELD, {n: f.used for n, f in self.flow.items()}, {n: len(x) for n, x in self.excl.items()}))
             raise _Lost()
         self.direct = hb.live_calls(HANDLE)
         self.spawns = hb.live_calls(SPAWN)
+
+    def only(self, mode, bb):
+        """Block bb runs only when the configured task mode is `mode`."""
+        return bb in self.excl[mode]
+
+    def under(self, mode, bb):
+        """Block bb can run when the configured task mode is `mode`."""
+        return bb in self.flow[mode].reach
+
+    def heads(self, mode):
+        """Entry blocks of the part of the function that is exclusive to `mode`."""
+        ex = self.excl[mode]
+        return sorted(b for b in ex if any(p not in ex for p in self.hb.preds(b) if p in self.flow[mode].reach))
+
+    def always_passes(self, mode, sites):
+        """With task mode `mode`, every path from the point where the modes part ways to a return passes one of `sites`."""
+        rets = set(self.hb.returns())
+        hs = self.heads(mode)
+        return bool(hs) and not any(rets & self.hb.reachable(h, avoid=sites, avoid_edges=self.flow[mode].dead) for h in hs)
+
+    def site(self, mode):
+        hs = self.heads(mode)
+        return (self.hb, hs[0]) if hs else self.hb
 
 
 class _Lost(Exception):
@@ -68,31 +105,31 @@ def r1_mode_table(ctx):
     if A is None:
         return
     hb = A.hb
-    ctx.check(R, "mode-read-from-server-config", A.mode_from_config, "the switch tests server.config.default_handler_task_mode: %s" % A.mode_from_config, (hb, A.sw))
+    ctx.check(R, "mode-read-from-server-config", A.mode_from_config, "the two execution contexts are separated by a test of server.config.default_handler_task_mode: %s" % A.mode_from_config, A.site("Detached"))
     # ---- CancelOnDisconnect arm
-    on_cancel = [(bb, t) for bb, t in A.direct if hb.edge_dominates(A.sw, A.cancel, bb)]
-    on_det = [(bb, t) for bb, t in A.direct if hb.edge_dominates(A.sw, A.detached, bb)]
+    on_cancel = [(bb, t) for bb, t in A.direct if A.only("CancelOnDisconnect", bb)]
+    on_det = [(bb, t) for bb, t in A.direct if A.only("Detached", bb)]
     other = [(bb, t) for bb, t in A.direct if (bb, t) not in on_cancel and (bb, t) not in on_det]
     ctx.check(R, "cancel-arm-calls-handler-in-request-future", len(on_cancel) == 1 and not other,
-              "handle_request calls in the request future: %d on the CancelOnDisconnect edge, %d on the Detached edge, %d elsewhere" % (len(on_cancel), len(on_det), len(other)), (hb, A.sw))
-    cancel_region = hb.reachable(A.cancel, avoid=[A.sw])
-    sp_c = [bb for bb, t in A.spawns if bb in cancel_region and not hb.edge_dominates(A.sw, A.detached, bb)]
-    ctx.check(R, "cancel-arm-has-no-spawn", not sp_c, "spawn calls reachable on the CancelOnDisconnect arm: %d" % len(sp_c), (hb, A.cancel))
+              "handle_request calls in the request future: %d reached only in CancelOnDisconnect mode, %d only in Detached mode, %d in either" % (len(on_cancel), len(on_det), len(other)), A.site("CancelOnDisconnect"))
+    sp_c = [bb for bb, t in A.spawns if A.under("CancelOnDisconnect", bb)]
+    ctx.check(R, "cancel-arm-has-no-spawn", not sp_c, "spawn calls the request future can reach in CancelOnDisconnect mode: %d" % len(sp_c), A.site("CancelOnDisconnect"))
     if len(on_cancel) == 1:
         cbb, ct = on_cancel[0]
         aws = awaits(hb, fut_call_bb=cbb)
-        ok = len(aws) == 1 and aws[0]["ready"] is not None and hb.edge_dominates(A.sw, A.cancel, aws[0]["poll_bb"])
+        ok = len(aws) == 1 and aws[0]["ready"] is not None and A.only("CancelOnDisconnect", aws[0]["poll_bb"])
         ctx.check(R, "cancel-arm-awaits-handler-in-place", ok, "the future returned by handle_request is polled by the request future itself on that arm: %d await(s)" % len(aws), (hb, cbb))
         # the future is not handed to anything but the await plumbing
         tainted, sinks = hb.forward([ct["dest"]["l"]])
         leaked = sorted(set((n.get("callee") or "<indirect>") for b, k, n in sinks if k == "call" and
-                            not _AWAIT_PLUMBING.search(n.get("callee") or "") and b != cbb and hb.edge_dominates(A.sw, A.cancel, b) and
+                            not _AWAIT_PLUMBING.search(n.get("callee") or "") and b != cbb and A.only("CancelOnDisconnect", b) and
                             not (aws and after_await(hb, aws[0], b))))
         ctx.check(R, "cancel-arm-handler-future-not-handed-off", not leaked, "calls receiving the un-awaited handler future: %s" % leaked, (hb, cbb))
     # ---- Detached arm
-    ctx.check(R, "detached-arm-no-direct-handler-call", not on_det, "handle_request calls made by the request future on the Detached edge: %d" % len(on_det), (hb, A.detached))
-    sp_d = [(bb, t) for bb, t in A.spawns if hb.edge_dominates(A.sw, A.detached, bb)]
-    ctx.check(R, "detached-arm-one-spawn", len(sp_d) == 1 and len(A.spawns) == 1, "spawn calls on the Detached edge: %d (in the whole function: %d)" % (len(sp_d), len(A.spawns)), (hb, A.detached))
+    in_det = [(bb, t) for bb, t in A.direct if A.under("Detached", bb)]
+    ctx.check(R, "detached-arm-no-direct-handler-call", not in_det, "handle_request calls the request future itself can make in Detached mode: %d" % len(in_det), A.site("Detached"))
+    sp_d = [(bb, t) for bb, t in A.spawns if A.only("Detached", bb)]
+    ctx.check(R, "detached-arm-one-spawn", len(sp_d) == 1 and len(A.spawns) == 1, "spawn calls reached only in Detached mode: %d (in the whole function: %d)" % (len(sp_d), len(A.spawns)), A.site("Detached"))
     if len(sp_d) != 1:
         return
     sbb, st = sp_d[0]
@@ -139,7 +176,7 @@ def r1_mode_table(ctx):
                 cs = hb.slice(node["rv"]["ops"][i]).calls(r"oneshot::channel$")
                 if len(cs) == 1:
                     from_chan, chan_bb = True, cs[0][1]
-        rx_aw = [a for a in awaits(hb, fut_type_rx=r"oneshot::Receiver") if hb.edge_dominates(A.sw, A.detached, a["poll_bb"])]
+        rx_aw = [a for a in awaits(hb, fut_type_rx=r"oneshot::Receiver") if A.only("Detached", a["poll_bb"])]
         same = from_chan and len(rx_aw) == 1 and slice_has_call_at(hb.slice(rx_aw[0]["term"]["args"][0]), chan_bb)
         ok_send = slice_has_call_at(vs, ibb) and after_await(g, aw, xbb) and same and g.must_pass([xbb], start=aw["ready"])
         detail = ("sent value is the handler's result=%s; sent after the handler completed=%s; sender and the awaited receiver come from one oneshot::channel()=%s; "
@@ -177,18 +214,18 @@ def r2_exactly_once(ctx):
     ctx.check(R, "handler-call-census", len(all_calls) == 2 and not outside,
               "RouteHandler::handle_request call sites in the crate: %d; outside http_request_handle and its spawned task: %s" % (len(all_calls), outside), hb)
     loops = hb.loop_blocks()
-    on_cancel = [(bb, t) for bb, t in A.direct if hb.edge_dominates(A.sw, A.cancel, bb)]
+    on_cancel = [(bb, t) for bb, t in A.direct if A.only("CancelOnDisconnect", bb)]
     if len(on_cancel) == 1:
         cbb = on_cancel[0][0]
-        ok = hb.must_pass([cbb], start=A.cancel) and cbb not in loops
-        ctx.check(R, "cancel-arm-once", ok, "every path of the CancelOnDisconnect arm passes the call=%s; call inside a loop=%s" % (hb.must_pass([cbb], start=A.cancel), cbb in loops), (hb, cbb))
+        passes = A.always_passes("CancelOnDisconnect", [cbb])
+        ctx.check(R, "cancel-arm-once", passes and cbb not in loops, "in CancelOnDisconnect mode every path from where the modes part ways to a return passes the call=%s; call inside a loop=%s" % (passes, cbb in loops), (hb, cbb))
     else:
-        ctx.check(R, "cancel-arm-once", False, "%d handle_request calls on the CancelOnDisconnect edge" % len(on_cancel), (hb, A.cancel))
-    sp_d = [(bb, t) for bb, t in A.spawns if hb.edge_dominates(A.sw, A.detached, bb)]
+        ctx.check(R, "cancel-arm-once", False, "%d handle_request calls reached only in CancelOnDisconnect mode" % len(on_cancel), A.site("CancelOnDisconnect"))
+    sp_d = [(bb, t) for bb, t in A.spawns if A.only("Detached", bb)]
     if len(sp_d) == 1:
         sbb, st = sp_d[0]
-        ok = hb.must_pass([sbb], start=A.detached) and sbb not in loops
-        ctx.check(R, "detached-arm-spawns-once", ok, "every path of the Detached arm passes the spawn=%s; spawn inside a loop=%s" % (hb.must_pass([sbb], start=A.detached), sbb in loops), (hb, sbb))
+        passes = A.always_passes("Detached", [sbb])
+        ctx.check(R, "detached-arm-spawns-once", passes and sbb not in loops, "in Detached mode every path from where the modes part ways to a return passes the spawn=%s; spawn inside a loop=%s" % (passes, sbb in loops), (hb, sbb))
         g, node = spawned_coroutine(hb, st)
         if g is None:
             ctx.lost(R, "the async block passed to tokio::spawn on the Detached arm")
@@ -197,9 +234,11 @@ def r2_exactly_once(ctx):
             ok = len(inner) == 1 and g.must_pass([inner[0][0]]) and inner[0][0] not in g.loop_blocks()
             ctx.check(R, "spawned-task-calls-handler-once", ok, "handle_request sites in the spawned coroutine: %d; on every path and outside loops: %s" % (len(inner), ok), g)
     else:
-        ctx.check(R, "detached-arm-spawns-once", False, "%d spawn calls on the Detached edge" % len(sp_d), (hb, A.detached))
-    # the mode switch itself is not in a loop (the poll loops of the awaits are inside the arms)
-    ctx.check(R, "mode-switch-not-in-loop", A.sw not in loops, "the task-mode switch lies on a cycle: %s" % (A.sw in loops), (hb, A.sw))
+        ctx.check(R, "detached-arm-spawns-once", False, "%d spawn calls reached only in Detached mode" % len(sp_d), A.site("Detached"))
+    # the point where the modes part ways is not in a loop (the poll loops of the awaits are inside the arms)
+    hs = A.heads("CancelOnDisconnect") + A.heads("Detached")
+    cyc = [b for b in hs if b in loops]
+    ctx.check(R, "mode-switch-not-in-loop", bool(hs) and not cyc, "entry blocks of the mode-specific parts that lie on a cycle: %d of %d" % (len(cyc), len(hs)), (hb, hs[0]) if hs else hb)
     # entry points
     wrap = ctx.need_fn(ctx.ds, R, r"^server::http_request_handle_wrap$")
     wb = ctx.ds.body_of(wrap)
@@ -221,7 +260,7 @@ def r3_panic_propagation(ctx):
     hb = A.hb
     ru = [(f, bb, t) for f, bb, t in callers(ctx.ds, r"panic::resume_unwind$|panic::panic_any$") if not f.id.startswith("test_util")]
     ctx.check(R, "resume-unwind-census", len(ru) == 1 and ru[0][0] is hb, "resume_unwind / panic_any call sites in the crate: %s" % [(f.id) for f, _, _ in ru], hb)
-    rx_aw = [a for a in awaits(hb, fut_type_rx=r"oneshot::Receiver") if hb.edge_dominates(A.sw, A.detached, a["poll_bb"])]
+    rx_aw = [a for a in awaits(hb, fut_type_rx=r"oneshot::Receiver") if A.only("Detached", a["poll_bb"])]
     if len(rx_aw) != 1 or rx_aw[0]["ready"] is None:
         ctx.lost(R, "the await on the oneshot receiver in the Detached arm (%d found)" % len(rx_aw))
         return
@@ -233,7 +272,7 @@ def r3_panic_propagation(ctx):
     sbb, info = sws[0]
     err = variant_edge(hb, sbb, info, "Err")
     okb = variant_edge(hb, sbb, info, "Ok")
-    sp_d = [(bb, t) for bb, t in A.spawns if hb.edge_dominates(A.sw, A.detached, bb)]
+    sp_d = [(bb, t) for bb, t in A.spawns if A.only("Detached", bb)]
     for f, bb, t in ru:
         if f is not hb:
             continue
@@ -243,11 +282,11 @@ def r3_panic_propagation(ctx):
         own = sl.has_call(r"JoinError::(into_panic|try_into_panic)$") and len(sp_d) == 1 and slice_has_call_at(sl, sp_d[0][0])
         ctx.check(R, "resume-unwind-reraises-the-task-panic", own, "the payload is JoinError::into_panic() of the JoinHandle returned by the Detached arm's spawn: %s" % own, (hb, bb))
     # Ok edge: the response is the received result
-    resp_ok = False
-    for b2, t2 in hb.live_calls(r"ops::Try::branch$"):
-        if hb.edge_dominates(sbb, okb, b2) and hb.slice(t2["args"][0]).touches_local(aw["dest"]):
-            resp_ok = True
-    ctx.check(R, "ok-edge-uses-received-result", resp_ok, "on the Ok edge the received handler result is what `?` is applied to: %s" % resp_ok, (hb, sbb))
+    # (the received value is itself the handler's Result: it is taken apart on the Ok edge -- by `?`, a match, if let .. --
+    # and the function's own result derives from it)
+    inner = [s2 for s2, i2 in result_switches_of(hb, aw["dest"], r"^std::result::Result$|^std::ops::ControlFlow$") if s2 != sbb and hb.edge_dominates(sbb, okb, s2)]
+    resp_ok = bool(inner) and hb.slice({"l": 0, "p": []}).touches_local(aw["dest"])
+    ctx.check(R, "ok-edge-uses-received-result", resp_ok, "on the Ok edge the received handler result is taken apart (%d test(s)) and feeds the request future's own result: %s" % (len(inner), resp_ok), (hb, sbb))
     # no panic on the Ok edge
     div = [b for b in hb.reachable(okb, avoid=[sbb]) if hb.blocks[b]["term"]["t"] == "call" and "to" not in hb.blocks[b]["term"] and hb.edge_dominates(sbb, okb, b)]
     ctx.check(R, "ok-edge-does-not-diverge", not div, "diverging calls on the Ok edge of rx.await: %d" % len(div), (hb, okb))
@@ -328,6 +367,17 @@ SELFTEST = [
     {"name": "await-split", "kind": "benign", "why": "behaviour-preserving: the handler future is bound to a local before being awaited; the received result is bound before `?`",
      "edits": [(_S, "            handler.handle_request(rqctx, request).await?\n", "            let fut = handler.handle_request(rqctx, request);\n            let r = fut.await;\n            r?\n"),
                (_S, "                Ok(result) => result?,", "                Ok(result) => { let r = result; r? }")]},
+    {"name": "mode-tested-with-eq", "kind": "benign", "why": "behaviour-preserving: the two-arm match on the mode written as `if mode == CancelOnDisconnect {..} else {..}` (derived PartialEq)",
+     "edits": [(_S, "    let mut response = match server.config.default_handler_task_mode {\n        HandlerTaskMode::CancelOnDisconnect => {", "    let mut response = if server.config.default_handler_task_mode == HandlerTaskMode::CancelOnDisconnect {\n        {"),
+               (_S, "        HandlerTaskMode::Detached => {\n            // Spawn the handler so", "        } else {\n            // Spawn the handler so"),
+               (_S, "                    panic::resume_unwind(task_err.into_panic());\n                }\n            }\n        }\n    };", "                    panic::resume_unwind(task_err.into_panic());\n                }\n            }\n        }\n    ;")]},
+    {"name": "mode-named-flag", "kind": "benign", "why": "behaviour-preserving: the mode is copied to a local, turned into a named flag with matches!, and the flag is tested (negated) by an if / else",
+     "edits": [(_S, "    let mut response = match server.config.default_handler_task_mode {\n        HandlerTaskMode::CancelOnDisconnect => {", "    let task_mode = server.config.default_handler_task_mode;\n    let run_detached = matches!(task_mode, HandlerTaskMode::Detached);\n    let mut response = if !run_detached {\n        {"),
+               (_S, "        HandlerTaskMode::Detached => {\n            // Spawn the handler so", "        } else {\n            // Spawn the handler so"),
+               (_S, "                    panic::resume_unwind(task_err.into_panic());\n                }\n            }\n        }\n    };", "                    panic::resume_unwind(task_err.into_panic());\n                }\n            }\n        }\n    ;")]},
+    {"name": "received-result-matched", "kind": "benign", "why": "behaviour-preserving: `result?` on the received handler result written as an explicit match with `return Err(e)`; the JoinError handled by match instead of expect_err",
+     "edits": [(_S, "                Ok(result) => result?,", "                Ok(result) => match result {\n                    Ok(rsp) => rsp,\n                    Err(handler_error) => return Err(handler_error),\n                },"),
+               (_S, "            handler.handle_request(rqctx, request).await?\n", "            match handler.handle_request(rqctx, request).await {\n                Ok(rsp) => rsp,\n                Err(handler_error) => return Err(handler_error),\n            }\n")]},
     {"name": "task-body-extracted-to-async-fn", "kind": "benign", "why": "behaviour-preserving: the detached task's body is an `async fn` called in the spawn argument instead of an inline async block",
      "edits": [(_S, "            let handler_task = tokio::spawn(async move {\n                let request_log = rqctx.log.clone();", "            let handler_task = tokio::spawn(run_detached(rqctx, handler, request, tx, worker));\n            #[cfg(any())]\n            let _unused = (async move {\n                let request_log = rqctx.log.clone();"),
                (_S, "async fn http_request_handle<C: ServerContext>(", "async fn run_detached<C: ServerContext>(\n    rqctx: RequestContext<C>,\n    handler: Arc<dyn crate::handler::RouteHandler<C>>,\n    request: Request<crate::Body>,\n    tx: oneshot::Sender<Result<Response<Body>, HandlerError>>,\n    worker: DebugIgnore<waitgroup::Worker>,\n) {\n    let request_log = rqctx.log.clone();\n    let result = handler.handle_request(rqctx, request).await;\n    if let Err(result) = tx.send(result) {\n        match result {\n            Ok(r) => warn!(request_log, \"request completed after handler was already cancelled\"; \"response_code\" => r.status().as_u16()),\n            Err(error) => warn!(request_log, \"request completed after handler was already cancelled\"; \"response_code\" => error.status_code().as_u16()),\n        }\n    }\n    mem::drop(worker);\n}\n\nasync fn http_request_handle<C: ServerContext>(")]},
